@@ -5,9 +5,9 @@ demo fails with the patch; demo passes without it. Then runs the checks of /veri
 import json, os, re, shutil, subprocess, sys, glob, tempfile, concurrent.futures
 
 SNAP = "2b0dff6"
-ROUND = next((n for n in (8, 7, 6, 5, 4, 3, 2) if f"--round{n}" in sys.argv), 1)
+ROUND = next((n for n in (9, 8, 7, 6, 5, 4, 3, 2) if f"--round{n}" in sys.argv), 1)
 ROUND2 = ROUND > 1   # later rounds: agents worked on worktrees of the repaired tree; output in /tmp/seedout<N>; demos run with -race
-BASES = {1: SNAP, 2: "54253df", 3: "b97d7ea", 4: "c21cce1", 5: "b7a25ef", 6: "dacf19b", 7: "8c2be28", 8: "c5fb0fb"}
+BASES = {1: SNAP, 2: "54253df", 3: "b97d7ea", 4: "c21cce1", 5: "b7a25ef", 6: "dacf19b", 7: "8c2be28", 8: "c5fb0fb", 9: "ae65310"}
 SRC = "/tmp/seedout" if ROUND == 1 else f"/tmp/seedout{ROUND}"
 BASE = BASES[ROUND]
 def sid(prop, k):
